@@ -75,6 +75,11 @@ func (r *run) faultedCompact(si, n int) (done bool, cs *sst.ChangeSet, removed [
 		return true, cs, removed, added, err
 	}
 	r.res.Count("compactions_with_a_read_fault", 1)
+	// whatever the failed step reports, the level list it was given stays in use
+	r.observe(si, "Build", nil)
+	if r.dead {
+		return false, nil, nil, nil, nil
+	}
 	if err != nil {
 		if strings.Contains(err.Error(), "panicked") {
 			r.res.Count("read_fault_panics", 1) // the step did not report success; nothing is applied
